@@ -436,7 +436,7 @@ func (fr *frame) val(st *State, v ssa.Value) *Val {
 		t := v.Type().(*types.Pointer).Elem()
 		return &Val{Addr: &Addr{Kind: AGlobal, Key: key, Root: t, Typ: t}, Go: v.Type()}
 	case *ssa.Function:
-		return &Val{Fn: v, T: IntLit64(int64(1000000 + vc.eng.typeID(types.NewPointer(types.Typ[types.Int])))), Go: v.Type()}
+		return &Val{Fn: v, T: vc.eng.funcIDTerm(v), Go: v.Type()}
 	case *ssa.Builtin:
 		return &Val{Go: v.Type()}
 	case *ssa.FreeVar:
